@@ -9,7 +9,7 @@ package rp
 // possible clock reading of the call; the 500ms terms are time.Round(time.Second).
 
 //@ func rp.VerifyIDToken
-//@   requires valid(v) && valid(v.KeySet) && v.Offset >= 0
+//@   requires valid(v) && v.Offset >= 0
 //@   ensures clock: old(wallclock) <= wallclock
 //@   ensures sound-valid: err == nil ==> valid(claims)
 //@   ensures sound-iss: err == nil ==> claims.GetIssuer() == v.Issuer
@@ -44,7 +44,7 @@ package rp
 //@   ensures iff: err == nil <==> atHash == "" || (hashBitsOf(str(sigAlgorithm)) != 0 && atHash == hashString(hashBitsOf(str(sigAlgorithm)), accessToken, true))
 
 //@ func rp.VerifyTokens
-//@   requires valid(v) && valid(v.KeySet) && v.Offset >= 0
+//@   requires valid(v) && v.Offset >= 0
 //@   ensures idtoken: err == nil ==> callres("rp.VerifyIDToken", 1) == nil && claims == callres("rp.VerifyIDToken", 0)
 //@   ensures at-hash: err == nil ==> claims.GetAccessTokenHash() == ""
 //@        || claims.GetAccessTokenHash() == hashString(hashBitsOf(str(claims.GetSignatureAlgorithm())), accessToken, true)
